@@ -35,6 +35,13 @@ pub fn id_program_ordered(n: usize, limits: &[u64], limit_first: bool) -> String
             s.push_str(&format!("  g{k}-{l}: random({l});\n"));
         }
     }
+    // limits with units: consecutive limits that denote the same quantity in different units
+    // (the unit of a limit is ignored; 10mm means 10, 1cm means 1)
+    if limits.first().is_some_and(|l| l % 2 == 0) {
+        for (j, (lim, unit)) in [(10u64, "mm"), (1, "cm"), (96, "px"), (1, "in"), (40, "q"), (1, "cm"), (1000, "ms"), (1, "s"), (7, "px")].iter().enumerate() {
+            s.push_str(&format!("  m{j}-{lim}: math.random({lim}{unit});\n"));
+        }
+    }
     s.push_str("}\n");
     s
 }
@@ -129,7 +136,7 @@ pub fn check_output(
                 ));
             }
         } else if let Some((_, lim)) = name.split_once('-').filter(|(a, _)| {
-            (a.starts_with('l') || a.starts_with('g')) && a.len() > 1 && a[1..].chars().all(|c| c.is_ascii_digit())
+            (a.starts_with('l') || a.starts_with('g') || a.starts_with('m')) && a.len() > 1 && a[1..].chars().all(|c| c.is_ascii_digit())
         }) {
             stats.inc("random_limit_checked");
             let limit: u64 = lim.parse().unwrap_or(0);
